@@ -2,5 +2,5 @@
 # ./seedtest.sh <patch.diff> <prop>...   -- apply a seeded change to /repo, run checks, undo
 patch=$1; shift
 git -C /repo apply "$(realpath "$patch")" || { echo "patch does not apply"; exit 3; }
-for p in "$@"; do ./check $p 2>&1 | grep -E "^(OK|VIOLATION|KNOWN|NO-VERDICT)|FAILED OBLIGATION" | head -5; echo "  -> $p rc=$?"; done
+for p in "$@"; do ./check $p > /tmp/seedtest.out 2>&1; rc=$?; grep -E "^(OK|VIOLATION|KNOWN|NO-VERDICT)" /tmp/seedtest.out | cut -c1-200; grep -E "^FAILED OBLIGATION" /tmp/seedtest.out | sort | uniq -c | cut -c1-200 | head -4; grep -E "^FAILING INPUT" /tmp/seedtest.out | cut -c1-300 | head -1; echo "  -> $p rc=$rc"; done
 git -C /repo checkout -- .
